@@ -22,7 +22,8 @@ TAG_PROPERTY = {
     "mon.idle.pe": "C13", "mon.idle.px": "C13", "mon.idle.pc": "C13", "mon.idle.px.D10": "C13", "mon.idle.pc.D10": "C13", "mon.scheduled": "C13", "sub": "C13",
     "isR": "C13", "isS": "C13", "ev.guard.queries": "C13", "pe": "C13", "px": "C13", "pc": "C13", "ev.config": "C13",
     "prev.payload": "C14", "ev.guard.payload": "C14", "ev.life.payload": "C14",
-    "mon.report": "C16", "strA": "C16", "hist": "C16",
+    "mon.report": "C16", "strA": "C16", "hist": "C16", "lg": "C16",
+    "log.methods": "C16", "log.requests": "C16", "log.statuses": "C16", "log.resolutions": "C16", "log.order": "C16",
     "draws": "C12",
     "asserts": "C11", "allocs": "C11",
     "buf": "C08", "mon.load.act": "C08", "mon.load.res": "C08", "mon.load.exit": "C08", "mon.load.enter": "C08",
@@ -32,10 +33,10 @@ CONFIG_TAGS = {"act", "isA", "res"}
 UNATTRIBUTED = {"ev.life", "ev.report", "ev.all"}
 
 TIERS = {
-    "quick": dict(fixtures=["min", "comp", "ortho", "strat", "auto", "peers", "util", "plancap"], records=900, chunks=3,
+    "quick": dict(fixtures=["min", "comp", "ortho", "strat", "auto", "peers", "util", "plancap", "bare"], records=900, chunks=3,
                   variants=["plain", "asan", "assert"], extra_variant_fixtures=["min", "ortho", "auto"],
                   mc=["min", "comp", "util"], systematic={"auto": 2, "ortho": 1}),
-    "thorough": dict(fixtures=["min", "comp", "ortho", "strat", "auto", "peers", "oroot", "wide", "plan", "selpeers", "util", "plancap"],
+    "thorough": dict(fixtures=["min", "comp", "ortho", "strat", "auto", "peers", "oroot", "wide", "plan", "selpeers", "util", "plancap", "bare"],
                      records=12000, chunks=12, variants=["plain", "asan", "assert", "dev", "plain11"], mc=["min", "comp", "ortho", "oroot", "util", "peers"],
                      systematic={"min": 12, "comp": 10, "ortho": 8, "strat": 6, "auto": 10, "peers": 6, "oroot": 8, "plan": 6}),
 }
@@ -215,7 +216,7 @@ STAGES = [
     ("C13", {"sub", "isR", "isS", "ev.guard.queries", "pe", "px", "pc", "ev.config"}),
     ("C09", {"prev", "tt", "last", "ret"}),
     ("C14", {"prev.payload", "ev.guard.payload", "ev.life.payload"}),
-    ("C16", {"strA", "hist"}),
+    ("C16", {"strA", "hist", "lg", "log.methods", "log.requests", "log.statuses", "log.resolutions", "log.order"}),
     ("C08", {"buf"}),
 ]
 
